@@ -8,7 +8,7 @@ checks_for() {
   case $1 in
     C01) echo "C01 C08 C11 C06" ;; C02) echo "C02 C09 C10 C11" ;; C03) echo "C03 C04" ;; C04) echo "C04 C11" ;;
     C05) echo "C05 C19" ;; C06) echo "C06 C10 C11" ;; C07) echo "C07 C01 C10" ;; C08) echo "C08 C11" ;;
-    C09) echo "C09 C02 C11 C10" ;; C10) echo "C10" ;; C11) echo "C11" ;; C12) echo "C12 C13" ;;
+    C09) echo "C09 C02 C11 C10 C08" ;; C10) echo "C10" ;; C11) echo "C11" ;; C12) echo "C12 C13" ;;
     C13) echo "C13 C12" ;; C14) echo "C14" ;; C15) echo "C15" ;; C16) echo "C16" ;;
     C17) echo "C17 C15" ;; C18) echo "C18" ;; C19) echo "C19 C01" ;; C20) echo "C20 C14 C12" ;;
   esac
